@@ -295,8 +295,18 @@ func buildJoinEvent(cs *Case, rng *rand.Rand, ln *Line) {
 	if ln.HasLvl {
 		ms = append(ms, member{"lvl", jsonStr(ln.Lvl, 0)})
 	}
+	if ln.PD != "" {
+		ms = append(ms, member{"pd", jsonStr(ln.PD, 0)})
+	}
 	path := strings.Split(cs.Field, ".")
-	if ln.HasField {
+	if ln.NonStr != "" {
+		// the field is present but is not a string
+		v := ln.NonStr
+		for i := len(path) - 1; i >= 1; i-- {
+			v = `{` + jsonStr(path[i], 0) + ":" + v + `}`
+		}
+		ms = append(ms, member{path[0], v})
+	} else if ln.HasField {
 		v := jsonStr(ln.Value, style)
 		for i := len(path) - 1; i >= 1; i-- {
 			sib := ""
@@ -367,6 +377,12 @@ func genLines(cs *Case) [][]*Line {
 	// the draws for match conditions and run shapes come from a stream of their
 	// own: a case without them is the same case as before they existed
 	rngM := rand.New(rand.NewSource(cs.Seed ^ 0x6d617463685f3135))
+	// the same for the actions behind the joining action and for non-string values
+	rngP := rand.New(rand.NewSource(cs.Seed ^ 0x706f73745f633135))
+	var nonStr []string
+	if cs.NonStrPct > 0 {
+		nonStr = nonStrVocab(cs)
+	}
 	names := streamNames(cs)
 	out := make([][]*Line, cs.Sources)
 	for s := 0; s < cs.Sources; s++ {
@@ -407,6 +423,25 @@ func genLines(cs *Case) [][]*Line {
 				if cs.PreDiscard && rng.Intn(6) == 0 {
 					ln.Drop = true
 				}
+				if len(nonStr) > 0 {
+					// a non-string value of the join field: anywhere, more often right inside
+					// a (nominal) run
+					pct := cs.NonStrPct
+					if inRun {
+						pct += 12
+					}
+					if rngP.Intn(100) < pct {
+						ln.HasField, ln.Value = false, ""
+						ln.NonStr = nonStr[rngP.Intn(len(nonStr))]
+						class = 3
+					}
+				}
+				if cs.Post != "" {
+					drawPostMarker(rngP, ln, class == 0)
+					if !postDiscards(cs) {
+						ln.PostDrop = false // the marker is there, but no action looks at it
+					}
+				}
 				if cs.Match != "" {
 					// events that do not satisfy the match conditions of the action: anywhere,
 					// and more often right inside a (nominal) run
@@ -426,6 +461,9 @@ func genLines(cs *Case) [][]*Line {
 			if cs.Match != "" {
 				ln.NoMatch = rngM.Intn(100) < cs.NoMatchPct
 				drawMatchMembers(cs, rngM, ln)
+			}
+			if cs.Post != "" {
+				ln.PD = pick(rngP, "", "0")
 			}
 			buildJoinEvent(cs, rng, ln)
 			per[si] = append(per[si], ln)
